@@ -1046,3 +1046,54 @@ def o_c18(params, cases, outs):
     if o.startswith("ok "):
         return None
     return "concurrent liftovers on a shared machine: %s" % o[:200]
+
+
+# ------------------------------------------------------------------------------------------------
+# shrinking of failing file-based groups (a minimal replay: one interval, as few chains as possible)
+# ------------------------------------------------------------------------------------------------
+
+SHRINKABLE = {"c01_sound", "c02_complete", "c16_dicts"}
+
+
+def shrink_file_group(g, fails):
+    """g: a failing group whose params hold {file, queries}; fails(group) -> message or None (runs the implementation).
+    Returns a smaller failing group (or g)."""
+    if g["oracle"] not in SHRINKABLE or "file" not in g["params"]:
+        return g
+    f, qs = load_file(copy.deepcopy(g["params"]))
+
+    def mk(f2, q2):
+        return group(g["family"] + ":shrunk", g["oracle"], [build_case(gen.render(f2), q2)], params=file_params(f2, q2))
+    best = g
+    # 1. a single interval
+    for q in qs:
+        cand = mk(f, [q])
+        if fails(cand):
+            best, qs = cand, [q]
+            break
+    # 2. drop chains while it still fails
+    changed = True
+    while changed and len(f) > 1:
+        changed = False
+        for i in range(len(f)):
+            f2 = f[:i] + f[i + 1:]
+            cand = mk(f2, qs)
+            if fails(cand):
+                f, best, changed = f2, cand, True
+                break
+    # 3. drop leading/trailing blocks of single chains when the chain stays well formed
+    for ci in range(len(f)):
+        c = f[ci]
+        while len(c["blocks"]) > 1:
+            b0 = c["blocks"][0]
+            c2 = dict(c)
+            c2["blocks"] = c["blocks"][1:]
+            c2["tstart"] = c["tstart"] + b0[0] + b0[1]
+            c2["qstart"] = c["qstart"] + b0[0] + b0[2]
+            f2 = f[:ci] + [c2] + f[ci + 1:]
+            cand = mk(f2, qs)
+            if gen.wf_chain(c2) and fails(cand):
+                f, c, best = f2, c2, cand
+            else:
+                break
+    return best
